@@ -138,6 +138,10 @@ var ctlPrograms = []prog{
 	mkProg("ctl-hooks-cancelled-call", "S:1:R,1,2:2:0:0:0 C:2:R,1,3:3 S:3:R,1,4:4:0:0:0 H:3:1001 H:4:1002 H:5:1001 D:1 O:retry=100"),
 	mkProg("ctl-timeout", "S:1:R,1,2:2:0:0:0 T:2:100:R,1,3:3:0 C:2:R,1,3:3 D:0"),
 	mkProg("ctl-two-callbacks", "S:1:R,1,2:2:0:0:0 C:2:B,P,1,X,1:3 C:2:R,1,3:3 S:3:R,1,4:4:0:0:0 H:3:0 H:4:0 D:0"),
+	// hooks under a workflow default ParallelCount: steps (and connectors) are sharded by it, HOOK consumers are not — one process
+	// per registered hook, which sees every run-state-change event
+	mkProg("ctl-hooks-default-count", "S:1:R,1,2:2:0:0:0 C:2:R,1,3:3 S:3:R,1,4:4:0:0:0 H:3:0 H:4:0 H:5:1 D:1 O:retry=100,dpar=2"),
+	mkProg("ctl-hooks-default-count-3", "S:1:R,1,2:2:0:0:0 C:2:R,1,3:3 S:3:R,1,4:4:0:0:0 H:3:0 H:4:0 H:5:0 D:1 O:retry=100,dpar=3"),
 	mkProg("ctl-hooks-lookup-miss", "S:1:R,1,2:2:0:0:0 C:2:R,1,3:3 S:3:R,1,4:4:0:0:0 H:3:0 H:4:0 H:5:0 D:1 O:retry=100,nf=1"),
 	mkProg("ctl-delete-fails-twice", "S:1:R,1,2:2:0:0:0 C:2:R,1,3:3 S:3:R,1,4:4:0:0:0 H:4:0 D:4 O:retry=100"),
 	mkProg("ctl-stepctl", "S:1:B,P,1,X,1:2:0:0:0 S:2:R,1,3:3:0:0:0 H:3:0 H:4:0 D:1 O:retry=100,stamp=1"),
@@ -320,6 +324,7 @@ func genEngine(p *params, emit func(string, bool)) {
 	case "C04":
 		genRedelivery(p, emit)
 		genStaleReads(p, emit)
+		genLongVersions(p, emit)
 	case "C09":
 		genTriggers(p, emit)
 		genSchedManual(p, emit)
@@ -344,7 +349,12 @@ func genEngine(p *params, emit func(string, bool)) {
 	case "C05":
 		genFaults(p, emit, 1.0)
 		genRelayBatches(p, emit)
-	default: // C01 C06 C07 C11 and the unprojected self-test
+	case "C01":
+		genFaults(p, emit, 1.0)
+		// a lagging replica at a step consumer's first lookup: the announcement is retried until the store has caught up, the run
+		// is not stranded
+		genStaleStepReads(p, emit)
+	default: // C06 C07 C11 and the unprojected self-test
 		genFaults(p, emit, 1.0)
 	}
 	_ = r
@@ -711,6 +721,33 @@ func genRedelivery(p *params, emit func(string, bool)) {
 	}
 }
 
+// versions with more than one digit: a polling step (declared self-loop) writes the run a dozen times; then early announcements
+// are replayed (a rewound cursor) against a record at version >= 10, and the announcement of version 10 meets a lookup answered
+// with version 9 — the gate compares NUMBERS
+func genLongVersions(p *params, emit func(string, bool)) {
+	pr := mkProg("long-versions", "S:1:R,1,2:2:0:0:0 S:2:R,1,2:2,3:0:0:0 C:2:R,1,3:3")
+	base := []string{"tr:1:0:4"}
+	base = append(base, pr.rounds(14)...)
+	emit(scenario(pr, base), true)
+	obs := runEngine("eng", strings.Fields(scenario(pr, base))[1:])
+	nlog := strings.Count(obs, " SD:")
+	for pos := 0; pos <= nlog; pos++ {
+		ops := append(append([]string{}, base...), fmt.Sprintf("rw:s2.1.1:%d", pos))
+		ops = append(ops, pr.rounds(4)...)
+		ops = append(ops, "cb:1:2")
+		ops = append(ops, pr.rounds(2)...)
+		emit(scenario(pr, ops), true)
+	}
+	for i, o := range base {
+		if o != "st:1/s2.1.1" {
+			continue
+		}
+		ops := withFault(base, i, "LK.0.sr")
+		ops = append(ops, pr.rounds(3)...)
+		emit(scenario(pr, ops), true)
+	}
+}
+
 // stale reads (a lagging replica answering Lookup with the previous version) at every lookup of every background
 // process, on histories with pauses and resumes, followed by recovery rounds
 func genStaleReads(p *params, emit func(string, bool)) {
@@ -780,12 +817,16 @@ func genStaleLower(p *params, emit func(string, bool)) {
 // consumer does on a stale row is outside C16's histories): the announcement is newer than what the store returned, so no
 // function may run on that older version — it is retried until the store has caught up; versions keep growing by one
 func genStaleStepReads(p *params, emit func(string, bool)) {
+	linearOnly := os.Getenv("VERIF_PROP") == "C01" // looping programs have no failure-free twin to compare a delayed run with
 	progs := []prog{
 		mkProg("stale16-linear", "S:1:R,1,2:2:0:0:0 S:2:R,1,3:3:0:0:0 S:3:R,1,4:4:0:0:0"),
 		mkProg("stale16-cycle", "S:1:R,1,2:2:0:0:0 S:2:R,1,3:3:0:0:0 S:3:B,R,1,2,R,1,4:2,4:0:0:0"),
 		mkProg("stale16-selfloop", "S:1:R,1,2:2:0:0:0 S:2:R,1,2:2,3:0:0:0 C:2:R,1,3:3 S:3:R,1,4:4:0:0:0"),
 	}
 	for _, pr := range progs {
+		if linearOnly && pr.name != "stale16-linear" {
+			continue
+		}
 		base := []string{"tr:1:0:4", "tr:2:0:7"}
 		base = append(base, pr.rounds(3)...)
 		base = append(base, "ct:1:0", "ct:1:1")
